@@ -24,7 +24,13 @@ KWAGRS_TEMPLATE = "{% for key, value in kwargs.items() %}" \
 keywords_set = set(keyword.kwlist)
 builtins_set = set(__builtins__.keys())
 other_common_names_set = {'datetime', 'time', 'date', 'defaultdict', 'schema'}
-blacklist_words = frozenset(keywords_set | builtins_set | other_common_names_set)
+# Names that generated modules import: a class or a field with such a name would rebind the import
+imported_names_set = {
+    'Any', 'Dict', 'List', 'Literal', 'Optional', 'Union',
+    'BaseModel', 'Field', 'SQLModel', 'attr', 'dataclass', 'field', 'optional', 'ClassType', 'convert_strings',
+    'BooleanString', 'FloatString', 'IntString', 'IsoDateString', 'IsoDatetimeString', 'IsoTimeString',
+}
+blacklist_words = frozenset(keywords_set | builtins_set | other_common_names_set | imported_names_set)
 ones = ['', 'one', 'two', 'three', 'four', 'five', 'six', 'seven', 'eight', 'nine']
 
 
